@@ -403,6 +403,7 @@ pub fn ctxlimit<S: MlDsa>(seed: u64, maxlen: usize, extra: &[usize], out: &mut O
         let sig = w.sign(hs, &m, &ctx, mode, &draw, Fault::None);
         match sig {
             Some(s) => { let _ = w.verify(hp, &m, &ctx, mode, &s); }
+            None if *n <= 255 => {}      // signing refused a legal context: the recorded Sign line is what the judge rejects
             None => {
                 // what a truncating verifier would reconstruct: M' with the length byte wrapped modulo 256
                 let mut mp = format_msg(mode, &ctx, &m);
